@@ -50,8 +50,13 @@ def make_taint_rule(origins, kinds, label, scope_prefix=None):
                         "sleep": "the command thread sleeps for a %s-controlled time (%s)",
                     }[s_["kind"]] % (org, what)
                     R.finding(fn, desc + ":unbounded", "%s: %s, line %s" % (fn.split("::")[-1], msg, s_["line"]), "%s:%s" % (b.file, s_["line"]))
-        R.floor("functions_with_sinks", nf)
-        R.floor("sinks_examined", ns)
+        if scope_prefix:
+            # a narrow scope can legitimately lose its last sink (`a - 1` rewritten as
+            # saturating_sub): the anchor is the scope itself
+            R.floor("functions_in_scope", len([f for f in scope if f.startswith(scope_prefix)]))
+        else:
+            R.floor("functions_with_sinks", nf)
+            R.floor("sinks_examined", ns)
         R.note("%s: %d sinks examined, %d bounded on all paths" % (label, ns, ng))
     return rule
 
